@@ -11,11 +11,13 @@ PROPS = {
                 dict(harness="VerifHarness_C12_rerun", reach=["rerun"]),
                 dict(harness="VerifHarness_C12_twice", reach=["resume", "refuse"]),
                 dict(harness="VerifHarness_C12_pending", reach=["resume", "refuse"]),
+                dict(harness="VerifHarness_C12_sums", reach=["resume", "refuse", "rerun"]),
             ],
             "thorough": [
                 dict(harness="VerifHarness_C12_thorough", reach=["resume", "refuse", "rerun"]),
                 dict(harness="VerifHarness_C12_twice4", reach=["resume", "refuse"]),
                 dict(harness="VerifHarness_C12_pending", reach=["resume", "refuse"]),
+                dict(harness="VerifHarness_C12_sums", reach=["resume", "refuse", "rerun"]),
             ],
         },
         bounds={
@@ -219,6 +221,8 @@ PROPS["C19"] = dict(
             dict(harness="VerifHarness_C19_schema1", reach=["ok", "error", "excluded"]),
             dict(module="cmd/atlas", pkg="ariga.io/atlas/cmd/atlas/internal/cmdapi", hdir="cmdapi", harness="VerifHarness_C19_policy", reach=["policy"]),
             dict(harness="VerifHarness_C19_p2", reach=["ok", "error", "excluded"]),
+            dict(harness="VerifHarness_C19_p1c3", reach=["ok", "error", "excluded"]),
+            dict(harness="VerifHarness_C19_schemac3", reach=["ok", "error", "excluded"]),
             dict(pkg="ariga.io/atlas/sql/sqlite", hdir="sqlite", harness="VerifHarness_C02_sqlite_skip", reach=["changes", "no-change"]),
         ],
         "thorough": [
@@ -228,6 +232,8 @@ PROPS["C19"] = dict(
             dict(harness="VerifHarness_C19_p1", reach=["ok", "error", "excluded"]),
             dict(harness="VerifHarness_C19_p1g3", reach=["ok", "error", "excluded"]),
             dict(harness="VerifHarness_C19_schema2", reach=["ok", "error", "excluded"]),
+            dict(harness="VerifHarness_C19_p1c4", reach=["ok", "error", "excluded"]),
+            dict(harness="VerifHarness_C19_schemac3", reach=["ok", "error", "excluded"]),
             dict(module="cmd/atlas", pkg="ariga.io/atlas/cmd/atlas/internal/cmdapi", hdir="cmdapi", harness="VerifHarness_C19_policy", reach=["policy"]),
             dict(harness="VerifHarness_C19_p1sym", reach=["ok", "excluded"], cross=False),
             dict(harness="VerifHarness_C19_p2", reach=["ok", "error", "excluded"], cross=False),
@@ -267,12 +273,14 @@ PROPS["C18"] = dict(
             dict(harness="VerifHarness_C18_quick", reach=["destructive", "additive"]),
             dict(pkg="ariga.io/atlas/sql/sqlite/sqlitecheck", hdir="sqlitecheck", harness="VerifHarness_C18_rebuild2", reach=["destructive", "additive"]),
             dict(module="cmd/atlas", pkg="ariga.io/atlas/cmd/atlas/internal/migratelint", hdir="migratelint", harness="VerifHarness_C18_lint", reach=["destructive", "additive"]),
+            dict(module="cmd/atlas", pkg="ariga.io/atlas/cmd/atlas/internal/migratelint", hdir="migratelint", harness="VerifHarness_C18_window", reach=["destructive", "additive"]),
             dict(harness="VerifHarness_C18_witness", role="witness", key="C18-order-insensitive-spans"),
         ],
         "thorough": [
             dict(harness="VerifHarness_C18_thorough", reach=["destructive", "additive"]),
             dict(pkg="ariga.io/atlas/sql/sqlite/sqlitecheck", hdir="sqlitecheck", harness="VerifHarness_C18_rebuild3", reach=["destructive", "additive"]),
             dict(module="cmd/atlas", pkg="ariga.io/atlas/cmd/atlas/internal/migratelint", hdir="migratelint", harness="VerifHarness_C18_lint", reach=["destructive", "additive"]),
+            dict(module="cmd/atlas", pkg="ariga.io/atlas/cmd/atlas/internal/migratelint", hdir="migratelint", harness="VerifHarness_C18_window", reach=["destructive", "additive"]),
             dict(harness="VerifHarness_C18_witness", role="witness", key="C18-order-insensitive-spans"),
         ],
     },
@@ -374,7 +382,7 @@ PROPS["C15"] = dict(
 def _c02_runs(extra):
     runs = []
     for d, cfg in (("sqlite", _lt), ("mysql", _my), ("postgres", _pg)):
-        for g in ("col", "idx", "idxattr", "rest", "pairs") + extra:
+        for g in ("col", "idx", "idxattr", "idxexpr", "rest", "pairs") + extra:
             reach = ["changes", "no-change"]
             runs.append(dict(cfg, harness=f"VerifHarness_C02_{d}_{g}", reach=reach))
     return runs
@@ -406,13 +414,18 @@ PROPS["C02"] = dict(
     note="Bounded template; reference verifExpected is trusted. The non-normalized check comparison (checksSimilarDiff) is legacy and not used by the CLI.",
 )
 
+_rows_stubs = {'(*database/sql.Rows).Next': 'verifRowsNext', '(*database/sql.Rows).Scan': 'verifRowsScan',
+               '(*database/sql.Rows).Close': 'verifRowsClose', '(*database/sql.Rows).Err': 'verifRowsErr'}
+_sqlinit = dict(initallow=["database/sql"])  # sql.ErrNoRows is what a planner without a connection answers
 PROPS["C05"] = dict(
     _lt,
     runs={
-        "quick": [dict(harness="VerifHarness_C05_quick", reach=["alter", "rebuild", "ifnull"]),
-                  dict(harness="VerifHarness_C05_multi", reach=["planned", "wrapped"])],
-        "thorough": [dict(harness="VerifHarness_C05_thorough", reach=["alter", "rebuild", "ifnull"]),
-                     dict(harness="VerifHarness_C05_multi", reach=["planned", "wrapped"])],
+        "quick": [dict(_sqlinit, harness="VerifHarness_C05_quick", reach=["alter", "rebuild", "ifnull"]),
+                  dict(_sqlinit, harness="VerifHarness_C05_conn", reach=["alter", "rebuild", "ifnull"], stubs=_rows_stubs),
+                  dict(_sqlinit, harness="VerifHarness_C05_multi", reach=["planned", "wrapped"])],
+        "thorough": [dict(_sqlinit, harness="VerifHarness_C05_thorough", reach=["alter", "rebuild", "ifnull"]),
+                     dict(_sqlinit, harness="VerifHarness_C05_conn", reach=["alter", "rebuild", "ifnull"], stubs=_rows_stubs),
+                     dict(_sqlinit, harness="VerifHarness_C05_multi", reach=["planned", "wrapped"])],
     },
     bounds={
         "quick": "new table of 2 columns, each unchanged / added / modified (ChangeKind = symbolic integer 1..255) / renamed / generated, NULL-ability symbolic, "
@@ -507,7 +520,9 @@ PROPS["C17"] = dict(
             dict(_st, harness="VerifHarness_C17_files2", reach=["reversible", "irreversible"], flags=["-domain"]),
             dict(_st, harness="VerifHarness_C17_long", reach=["reversible"]),
             dict(_my, harness="VerifHarness_C17_mysql", reach=["reverse"]),
+            dict(_my, harness="VerifHarness_C17_mysql_seq", reach=["reverse", "irreversible"]),
             dict(_pg, harness="VerifHarness_C17_postgres", reach=["reverse"]),
+            dict(_pg, harness="VerifHarness_C17_postgres_seq", reach=["reverse", "irreversible"]),
             dict(_lt, harness="VerifHarness_C17_sqlite", reach=["reverse", "irreversible"]),
             dict(_my, harness="VerifHarness_C17_mysql_restore", reach=["reversible"]),
             dict(_pg, harness="VerifHarness_C17_postgres_restore", reach=["reversible"]),
@@ -518,7 +533,9 @@ PROPS["C17"] = dict(
             dict(_st, harness="VerifHarness_C17_files3", reach=["reversible", "irreversible"], flags=["-domain"], cross=False),
             dict(_st, harness="VerifHarness_C17_long", reach=["reversible"]),
             dict(_my, harness="VerifHarness_C17_mysql", reach=["reverse"]),
+            dict(_my, harness="VerifHarness_C17_mysql_seq", reach=["reverse", "irreversible"]),
             dict(_pg, harness="VerifHarness_C17_postgres", reach=["reverse"]),
+            dict(_pg, harness="VerifHarness_C17_postgres_seq", reach=["reverse", "irreversible"]),
             dict(_lt, harness="VerifHarness_C17_sqlite", reach=["reverse", "irreversible"]),
             dict(_my, harness="VerifHarness_C17_mysql_restore", reach=["reversible"]),
             dict(_pg, harness="VerifHarness_C17_postgres_restore", reach=["reversible"]),
@@ -559,6 +576,8 @@ _c20 = [
     dict(_pg, harness="VerifHarness_C20_postgres", reach=["compared"]),
     dict(_pg, harness="VerifHarness_C20_postgres_scope", reach=["compared"]),
     dict(_lt, harness="VerifHarness_C20_sqlite", reach=["compared"]),
+    dict(_my, harness="VerifHarness_C20_mysql_names", reach=["compared"]),
+    dict(_pg, harness="VerifHarness_C20_postgres_names", reach=["compared"]),
     dict(_my, harness="VerifHarness_C20_mysql_replan", reach=["compared"]),
     dict(_pg, harness="VerifHarness_C20_postgres_replan", reach=["compared"]),
     dict(_lt, harness="VerifHarness_C20_sqlite_replan", reach=["compared"]),
@@ -649,6 +668,8 @@ def _c07_runs(tier):
         for g in names:
             runs.append(dict(cfg, harness=f"VerifHarness_C07_{d}_{g}", reach=["read"], cross=(g not in ("atlas", "atlas_names2"))))
     runs.append(dict(_lt, harness="VerifHarness_C07_sqlite_foreign2", reach=["read"]))
+    # two free bytes in the default and the comment texts (PostgreSQL: a literal's escape syntax may depend on two characters)
+    runs.append(dict(_pg, harness="VerifHarness_C07_postgres_atlas_texts2", reach=["read"], cross=False))
     if tier == "thorough":
         runs.append(dict(_pg, harness="VerifHarness_C07_postgres_foreign2", reach=["read"], cross=False))
     runs.append(dict(_my, harness="VerifHarness_C07_mysql_witness_reader", role="witness", key="C07-mysql-foreign-reader-escapes"))
@@ -778,8 +799,6 @@ PROPS["C10"] = dict(
     note="Model-store based and bounded; fidelity guarded by executing sampled paths and all counterexamples on the real CLI + SQLite with the crash driver.",
 )
 
-_rows_stubs = {'(*database/sql.Rows).Next': 'verifRowsNext', '(*database/sql.Rows).Scan': 'verifRowsScan',
-               '(*database/sql.Rows).Close': 'verifRowsClose', '(*database/sql.Rows).Err': 'verifRowsErr'}
 PROPS["C03"] = dict(
     _lt,
     runs={
@@ -790,6 +809,7 @@ PROPS["C03"] = dict(
             dict(_hclfull, harness="VerifHarness_C15_sqlite_doc_objects", reach=["evaluated"]),
             dict(harness="VerifHarness_C03_names", reach=["recovered"]),
             dict(harness="VerifHarness_C03_checks3", reach=["recovered"], flags=["-domain"]),
+            dict(harness="VerifHarness_C03_checksq", reach=["recovered"], flags=["-domain"]),
             dict(harness="VerifHarness_C03_gen3", reach=["recovered"], flags=["-domain"]),
         ],
         "thorough": [
@@ -798,6 +818,7 @@ PROPS["C03"] = dict(
             dict(harness="VerifHarness_C03_names", reach=["recovered"]),
             dict(harness="VerifHarness_C03_checks2", reach=["recovered"], cross=False),
             dict(harness="VerifHarness_C03_checks3", reach=["recovered"]),
+            dict(harness="VerifHarness_C03_checksq", reach=["recovered"]),
             dict(harness="VerifHarness_C03_gen3", reach=["recovered"]),
         ],
     },
@@ -830,6 +851,25 @@ NOT_APPLICABLE = {
            "semantics can be encoded by an SSA-level symbolic executor, and a hand-written catalogue model would verify the model, not Atlas "
            "(the reachable code-level pieces are claimed under C02, C03, C05)",
 }
+# ---- families added in round five (bounds text) ----
+_r5 = {
+    "C02": "; expression-part group: an index of a column part and an optional expression part ((b + 1) / (b + 2)), each with a symbolic direction",
+    "C03": "; quoting family: two CHECK constraints whose expressions end in 3 and 2 symbolic bytes over {a, ', \\, (, ), blank}",
+    "C05": "; connected-planner family: the same template planned on a connection that answers every query with 0 or 1 rows",
+    "C07": "; PostgreSQL with 2 symbolic bytes in the default and in the comment text (Atlas format)",
+    "C08": "; prefixes that close a comment directly with the delimiter",
+    "C09": "; checkpoint family: any subset of up to 3 files are checkpoints",
+    "C12": "; sums family: 2 old / 0..2 new concrete statements chosen among 5 texts whose real SHA-256 digests begin with '7', 'h', '1', 'hl', '1S' (the engine evaluates the real digest of concrete pre-images)",
+    "C15": "; the expression part of the document-level index has a symbolic direction",
+    "C17": "; sequence family (MySQL, PostgreSQL): one ModifyTable with an ordered pair out of 9 sub-changes (add/drop column, unnamed/named check, drop check, add foreign key, modify column, add/drop index)",
+    "C18": "; window family: two new files (with or without a base file), the second drops a table created by the base or by the first",
+    "C19": "; 3-byte globs over the class alphabet {a, b, [, ], -, ^} (ExcludeRealm last part and ExcludeSchema); thorough: 4 bytes",
+    "C20": "; names family (MySQL, PostgreSQL): 3 tables named by one symbolic byte each over {a, A, b, B, _}, pairwise distinct, 3 foreign-key shapes",
+}
+for _p, _t in _r5.items():
+    for _tier in ("quick", "thorough"):
+        PROPS[_p]["bounds"][_tier] = PROPS[_p]["bounds"][_tier] + _t
+
 for _p in ["C10","C11","C13","C14","C15","C16","C17","C18","C19","C20"]:
     NOT_APPLICABLE.setdefault(_p, "check not built yet in this session (planned, see DESIGN.md section 5)")
 
